@@ -40,6 +40,21 @@ class Veto(Exception):
         self.count = count
 
 
+class VetoAssert(Veto, AssertionError):
+    """A veto written as an assertion (validating classes often say `assert ...` in a pre-hook)."""
+
+
+class VetoTree(Veto, TreeError):
+    """A veto that uses the library's own exception class."""
+
+
+class VetoLookup(Veto, KeyError):
+    """A veto that surfaces as a LookupError from the hook's own bookkeeping."""
+
+
+VETO_KINDS = {None: Veto, "assert": VetoAssert, "tree": VetoTree, "lookup": VetoLookup}
+
+
 class VetoBase(BaseException):
     """Raised by a hook according to the fault plan 'base': an interrupt-like exception (KeyboardInterrupt, SystemExit and
     GeneratorExit are BaseExceptions but not Exceptions), which no 'except Exception' handler may swallow or react to."""
@@ -70,6 +85,7 @@ class Recorder:
         self.persist = {(k, l) for k, l in plan.get("persist", ())}
         self.evict = {(k, l) for k, l in plan.get("evict", ())}
         self.base = set(plan.get("base", ()))
+        self.veto_class = VETO_KINDS[plan.get("exc")]
 
     def hook(self, kind, node, arg):
         label = self.labels.label(node)
@@ -88,7 +104,7 @@ class Recorder:
             raise VetoBase(kind, label, self.count)
         if self.count in self.once or (kind, label) in self.persist:
             self.raised.append(self.count)
-            raise Veto(kind, label, self.count)
+            raise self.veto_class(kind, label, self.count)
         if (kind, label) in self.evict and not kind.endswith("_children"):
             # a hook that itself changes the tree (e.g. 'the newcomer evicts the first child'): once per call
             self.evict.discard((kind, label))
@@ -113,6 +129,11 @@ class Recorder:
                 break
 
 
+class ReprBoom(Exception):
+    """Raised by the repr of the harness's node classes while REPR_BOOM[0] is set."""
+
+
+REPR_BOOM = [False]
 CURRENT = [None]  # process-local; replaced at the start of every case
 
 
@@ -148,8 +169,14 @@ class HookMix:
         _rec().hook("post_attach_children", self, children)
 
     def __repr__(self):
+        if REPR_BOOM[0]:
+            # a class whose repr cannot be evaluated right now (it prints an attribute that is not set yet, or data that
+            # refers back to the node): nothing on a successful path, and nothing between a refusal and its rollback, may need it
+            raise ReprBoom()
         rec = _rec()
         return "<%s>" % (rec.labels.label(self) if rec is not None and rec.labels.known(self) else "?")
+
+    __str__ = __repr__
 
 
 class HNM(HookMix, NodeMixin):
@@ -812,7 +839,7 @@ def history_strategy(max_nodes=7, max_steps=30, faults="none", invalid=False, cl
         if faults == "none":
             plan = st.just({})
         else:
-            once = st.lists(st.integers(1, 14), min_size=1, max_size=2, unique=True).map(lambda ks: {"once": sorted(ks)})
+            once = st.tuples(st.lists(st.integers(1, 14), min_size=1, max_size=2, unique=True), st.sampled_from([None, None, "assert", "tree", "lookup"])).map(lambda t: {"once": sorted(t[0]), "exc": t[1]} if t[1] else {"once": sorted(t[0])})
             persist = st.lists(st.tuples(st.sampled_from(list(hooks)), idx).map(list), min_size=1, max_size=3).map(lambda ps: {"persist": ps})
             readonly = st.just({"persist": [[h, i] for i in range(n) for h in ("pre_detach", "pre_attach")]})
             plans = [st.just({}), st.just({}), once, once, persist, readonly]
@@ -895,6 +922,7 @@ def enum_fault_cases(cls, n, index, count, fault_hooks=(), pairs=False, persist=
     """Single-step cases: every forest x build route x call x fault position of this shard."""
     family = family_of(cls)
     fault_hooks = set(fault_hooks)
+    kinds = itertools.cycle([None, "assert", None, "tree", None, "lookup"])
     classes = class_list(cls, n)
     for state, route in enum_states(n, index, count):
         if routes is not None and route not in routes:
@@ -919,7 +947,8 @@ def enum_fault_cases(cls, n, index, count, fault_hooks=(), pairs=False, persist=
             for k in range(1, len(log0) + 1):
                 if log0[k - 1][0] not in fault_hooks:
                     continue
-                yield dict(base, steps=[{"op": op, "plan": {"once": [k]}}])
+                kind = next(kinds)
+                yield dict(base, steps=[{"op": op, "plan": {"once": [k], "exc": kind} if kind else {"once": [k]}}])
                 log1 = dry_log(base, op, {"once": [k]})
                 for entry in log1:
                     key = (entry[0], entry[1])
